@@ -2,6 +2,7 @@
    theorems stated for well-formed trees (C17 both directions, block-size expansion) hold for every
    frame the parser accepts. *)
 From FlacCodec Require Import Parser_proofs Struct Write Wf Roundtrip_sub Inverse.
+From FlacBase Require Import Crc.
 Open Scope N_scope.
 
 Lemma sext_fits n v : (0 < n)%nat -> v < 2 ^ N.of_nat n -> fits (N.of_nat n) (sext n v) = true.
@@ -40,17 +41,18 @@ Qed.
 Lemma zigzag_decode_fits u : u < 2 ^ 32 -> fits 32 (zigzag_decode u) = true.
 Proof.
   intros Hu. change (2 ^ 32) with 4294967296 in Hu. unfold fits, zigzag_decode.
-  pose proof (N.div_mod u 2 ltac:(discriminate)). pose proof (N.mod_upper_bound u 2 ltac:(discriminate)).
-  change (2 ^ (Z.of_N 32 - 1))%Z with 2147483648%Z.
-  apply andb_true_intro. split; [apply andb_true_intro; split|].
-  - reflexivity.
+  pose proof (N.div_mod u 2 ltac:(discriminate)) as D. pose proof (N.mod_upper_bound u 2 ltac:(discriminate)) as M.
+  remember (u / 2) as q. remember (u mod 2) as m.
+  assert (Hq : q < 2147483648) by lia.
+  change (2 ^ (Z.of_N 32 - 1))%Z with 2147483648%Z. change (1 <=? 32) with true. cbn [andb].
+  apply andb_true_intro. split.
   - apply Z.leb_le. destruct (N.odd u); lia.
   - apply Z.ltb_lt. destruct (N.odd u); lia.
 Qed.
 
-Lemma rice_fits k s z r : p_rice k s = Ok (z, r) -> fits 32 z = true.
+Lemma rice_fits k s z r : k <= 32 -> p_rice k s = Ok (z, r) -> fits 32 z = true.
 Proof.
-  unfold p_rice, pbind. intros H.
+  unfold p_rice, pbind. intros Hk H.
   destruct (p_unary true s) as [[msb s1]| |]; try discriminate.
   destruct (p_rd (N.to_nat k) s1) as [[lsb s2]| |] eqn:E2; try discriminate.
   destruct (N.leb_spec msb ((2 ^ 32 - 1) / 2 ^ k)) as [Hm|]; cbn [p_guard] in H; [|discriminate].
@@ -59,19 +61,22 @@ Proof.
   apply rd_bound in E. rewrite N2Nat.id in E.
   apply zigzag_decode_fits.
   assert (Hp : 2 ^ k <> 0) by (apply N.pow_nonzero; discriminate).
-  pose proof (N.mul_div_le (2 ^ 32 - 1) (2 ^ k) Hp) as Hd.
-  change (2 ^ 32) with 4294967296 in *.
-  assert (msb * 2 ^ k <= 2 ^ k * (4294967295 / 2 ^ k)) by nia. nia.
+  assert (Esplit : 2 ^ 32 = 2 ^ k * 2 ^ (32 - k)) by (rewrite <- N.pow_add_r; f_equal; lia).
+  assert (Hq : 2 ^ (32 - k) <> 0) by (apply N.pow_nonzero; discriminate).
+  remember (2 ^ k) as p. remember (2 ^ (32 - k)) as q.
+  assert (Ediv : (2 ^ 32 - 1) / p = q - 1).
+  { symmetry. apply (N.div_unique _ p _ (p - 1)); [lia|]. rewrite Esplit. nia. }
+  rewrite Ediv in Hm. rewrite Esplit. nia.
 Qed.
 
-Lemma repeat_rice_fits k : forall n s xs r, p_repeat n (p_rice k) s = Ok (xs, r) ->
+Lemma repeat_rice_fits k : k <= 32 -> forall n s xs r, p_repeat n (p_rice k) s = Ok (xs, r) ->
   forallb (fits 32) xs = true /\ length xs = n.
 Proof.
-  induction n as [|n IH]; intros s xs r H; cbn [p_repeat] in H.
+  intros Hk. induction n as [|n IH]; intros s xs r H; cbn [p_repeat] in H.
   - unfold pret in H. inversion H; subst. auto.
   - unfold pbind in H. destruct (p_rice k s) as [[x s1]| |] eqn:E1; try discriminate.
     destruct (p_repeat n (p_rice k) s1) as [[ys s2]| |] eqn:E2; try discriminate.
-    unfold pret in H. inversion H; subst. apply rice_fits in E1. apply IH in E2. destruct E2 as [F L].
+    unfold pret in H. inversion H; subst. apply (rice_fits k _ _ _ Hk) in E1. apply IH in E2. destruct E2 as [F L].
     cbn [forallb length]. rewrite E1, F. auto.
 Qed.
 
@@ -96,15 +101,17 @@ Proof.
       unfold p_rd in Ew. destruct (rd 5 t1) as [[w' t'']|] eqn:Rw; inversion Ew; subst. apply rd_bound in Rw.
       change (2 ^ N.of_nat 5) with 32 in Rw.
       destruct (N.eqb_spec w 0) as [->|Nw]; unfold pret in E1; inversion E1; subst; cbn [p_partition] in E2.
-      * unfold pret in E2. inversion E2; subst. cbn [wf_part]. split; [reflexivity|]. reflexivity.
+      * unfold pret in E2. inversion E2; subst. cbn [wf_part]. unfold part_len. cbn [part_residuals].
+        rewrite repeat_length. auto.
       * destruct (repeat_rds_fits (N.to_nat w) ltac:(lia) _ _ _ _ E2) as [Fx Lx]. rewrite N2Nat.id in Fx.
         cbn [wf_part]. unfold part_len. cbn [part_residuals]. rewrite Lx, Fx.
         destruct (N.leb_spec 1 w); [|lia]. destruct (N.leb_spec w 31); [|lia]. auto.
     + unfold pret in E1. inversion E1; subst. cbn [p_partition] in E2.
-      destruct (repeat_rice_fits _ _ _ _ _ E2) as [Fx Lx].
-      cbn [wf_part]. unfold part_len. cbn [part_residuals]. rewrite Lx, Fx.
       assert (Hk : k < (if method =? 0 then 15 else 31)).
       { destruct (N.eqb_spec method 0); [change (2 ^ N.of_nat 4) with 16 in Rk|change (2 ^ N.of_nat 5) with 32 in Rk]; lia. }
+      assert (Hk32 : k <= 32) by (destruct (method =? 0); lia).
+      destruct (repeat_rice_fits _ Hk32 _ _ _ _ E2) as [Fx Lx].
+      cbn [wf_part]. unfold part_len. cbn [part_residuals]. rewrite Lx, Fx.
       apply N.ltb_lt in Hk. rewrite Hk. auto.
   - discriminate.
 Qed.
@@ -132,4 +139,213 @@ Proof.
   { rewrite L, N2Nat.id. apply N.log2_pow2. lia. }
   rewrite Elog. rewrite <- M. rewrite <- map_map. rewrite lens_eqb_refl.
   apply N.ltb_lt in Hm. apply N.ltb_lt in Rp. rewrite Hm, Rp, Hdiv, F. reflexivity.
+Qed.
+
+Lemma subframe_header_type s ty wasted r : p_subframe_header s = Ok ((ty, wasted), r) ->
+  match ty with TFixed o => o <= 4 | TLpc o => 1 <= o /\ o <= 32 | _ => True end.
+Proof.
+  unfold p_subframe_header, pbind. intros H.
+  destruct (p_bit s) as [[pad s0]| |]; try discriminate.
+  destruct (negb pad); cbn [p_guard] in H; [|discriminate]. unfold pret at 1 in H.
+  destruct (p_rd 6 s0) as [[t s1]| |] eqn:E1; try discriminate.
+  unfold p_rd in E1. destruct (rd 6 s0) as [[t' u']|] eqn:R; inversion E1; subst. apply rd_bound in R. change (2 ^ N.of_nat 6) with 64 in R.
+  destruct (N.eqb_spec t 0).
+  { unfold pret at 1 in H. destruct (p_bit s1) as [[w s2]| |]; try discriminate.
+    destruct w; [destruct (p_unary true s2) as [[u s3]| |]; try discriminate|]; unfold pret in H; inversion H; subst; exact I. }
+  destruct (N.eqb_spec t 1).
+  { unfold pret at 1 in H. destruct (p_bit s1) as [[w s2]| |]; try discriminate.
+    destruct w; [destruct (p_unary true s2) as [[u s3]| |]; try discriminate|]; unfold pret in H; inversion H; subst; exact I. }
+  destruct ((8 <=? t) && (t <=? 12)) eqn:Ef.
+  { apply andb_prop in Ef. destruct Ef as [F1 F2]. apply N.leb_le in F1. apply N.leb_le in F2.
+    unfold pret at 1 in H. destruct (p_bit s1) as [[w s2]| |]; try discriminate.
+    destruct w; [destruct (p_unary true s2) as [[u s3]| |]; try discriminate|]; unfold pret in H; inversion H; subst; lia. }
+  destruct (N.leb_spec 32 t); [|discriminate].
+  unfold pret at 1 in H. destruct (p_bit s1) as [[w s2]| |]; try discriminate.
+  destruct w; [destruct (p_unary true s2) as [[u s3]| |]; try discriminate|]; unfold pret in H; inversion H; subst; lia.
+Qed.
+
+Theorem struct_subframe_wf bs bps s sf r : struct_subframe bs bps s = Ok (sf, r) -> wf_subframe bs bps sf = true.
+Proof.
+  unfold struct_subframe, pbind. intros H.
+  destruct (p_subframe_header s) as [[[ty wasted] s1]| |] eqn:Eh; try discriminate.
+  pose proof (subframe_header_type _ _ _ _ Eh) as Hty.
+  unfold plift in H. destruct (effective_bps bps wasted) as [eb| |] eqn:Ee; try discriminate.
+  assert (Hw : wasted <= bps - 1 /\ 1 <= bps).
+  { unfold effective_bps in Ee. destruct (N.leb_spec wasted (bps - 1)); [|discriminate]. destruct (N.leb_spec 1 bps); [|discriminate]. auto. }
+  apply effective_bps_inv in Ee. destruct Ee as [-> He1].
+  assert (Hpos : (0 < N.to_nat (bps - wasted))%nat) by lia.
+  assert (Eid : N.of_nat (N.to_nat (bps - wasted)) = bps - wasted) by apply N2Nat.id.
+  unfold wf_subframe.
+  assert (Hpre : (1 <=? bps) && (wasted <=? bps - 1) = true).
+  { apply andb_true_intro. split; apply N.leb_le; lia. }
+  destruct ty as [| |o|o].
+  - destruct (p_rds _ s1) as [[v s2]| |] eqn:E1; try discriminate. unfold pret in H. inversion H; subst.
+    cbn [sf_wasted sf_body wf_body]. rewrite Hpre. apply (rds_fits _ _ _ _ Hpos) in E1. rewrite Eid in E1. rewrite E1. reflexivity.
+  - destruct (p_repeat _ _ s1) as [[xs s2]| |] eqn:E1; try discriminate. unfold pret in H. inversion H; subst.
+    cbn [sf_wasted sf_body wf_body]. rewrite Hpre.
+    destruct (repeat_rds_fits _ Hpos _ _ _ _ E1) as [F L]. rewrite Eid in F. rewrite F, L, Nat.eqb_refl. reflexivity.
+  - destruct (p_repeat _ _ s1) as [[warm s2]| |] eqn:E1; try discriminate.
+    destruct (struct_residuals bs o s2) as [[res s3]| |] eqn:E2; try discriminate. unfold pret in H. inversion H; subst.
+    cbn [sf_wasted sf_body wf_body]. rewrite Hpre.
+    destruct (repeat_rds_fits _ Hpos _ _ _ _ E1) as [F L]. rewrite Eid in F.
+    apply struct_residuals_wf in E2. rewrite F, L, Nat.eqb_refl, E2.
+    destruct (N.leb_spec o 4); [reflexivity|lia].
+  - destruct (p_repeat _ _ s1) as [[warm s2]| |] eqn:E1; try discriminate.
+    unfold p_qlp_precision, p_qlp_shift, pbind in H.
+    destruct (p_rd 4 s2) as [[c s3]| |] eqn:E2; try discriminate.
+    unfold p_rd in E2. destruct (rd 4 s2) as [[c' u']|] eqn:Rc; inversion E2; subst. apply rd_bound in Rc. change (2 ^ N.of_nat 4) with 16 in Rc.
+    destruct (N.eqb_spec c 15); [discriminate|]. unfold pret at 1 in H.
+    destruct (p_rds 5 s3) as [[sh s4]| |] eqn:E3; try discriminate.
+    destruct (Z.ltb_spec sh 0); [discriminate|]. unfold pret at 1 in H.
+    destruct (p_repeat (N.to_nat o) (p_rds (N.to_nat (c + 1))) s4) as [[coefs s5]| |] eqn:E4; try discriminate.
+    destruct (struct_residuals bs o s5) as [[res s6]| |] eqn:E5; try discriminate. unfold pret in H. inversion H; subst.
+    cbn [sf_wasted sf_body wf_body]. rewrite Hpre.
+    destruct (repeat_rds_fits _ Hpos _ _ _ _ E1) as [F L]. rewrite Eid in F.
+    destruct (repeat_rds_fits (N.to_nat (c + 1)) ltac:(lia) _ _ _ _ E4) as [Fc Lc]. rewrite N2Nat.id in Fc.
+    apply struct_residuals_wf in E5.
+    apply (rds_fits 5 _ _ _ ltac:(lia)) in E3. apply fits_spec in E3. destruct E3 as [_ E3].
+    change (Z.of_nat (N.to_nat (N.of_nat 5) - 1)) with 4%Z in E3. change (2 ^ 4)%Z with 16%Z in E3.
+    rewrite F, L, Fc, Lc, !Nat.eqb_refl, E5. destruct Hty as [Ho1 Ho32].
+    destruct (N.leb_spec 1 o); [|lia]. destruct (N.leb_spec o 32); [|lia].
+    destruct (N.leb_spec 1 (c + 1)); [|lia]. destruct (N.leb_spec (c + 1) 15); [|lia].
+    destruct (N.leb_spec (Z.to_N sh) 15); [reflexivity|lia].
+Qed.
+
+Lemma struct_subframes_wf h : forall n i s subs r, struct_subframes h i n s = Ok (subs, r) -> wf_subframes h i subs = true.
+Proof.
+  induction n as [|n IH]; intros i s subs r H; cbn [struct_subframes] in H.
+  - unfold pret in H. inversion H; subst. reflexivity.
+  - unfold pbind in H.
+    destruct (struct_subframe _ _ s) as [[sf s1]| |] eqn:E1; try discriminate.
+    destruct (struct_subframes h (S i) n s1) as [[rest s2]| |] eqn:E2; try discriminate.
+    unfold pret in H. inversion H; subst. cbn [wf_subframes].
+    apply struct_subframe_wf in E1. apply IH in E2. rewrite E1, E2. reflexivity.
+Qed.
+
+(* ---- header ---- *)
+Lemma frame_number_bound s v r : p_frame_number s = Ok (v, r) -> v <= MAX_FRAME_NUMBER.
+Proof.
+  unfold p_frame_number, pbind, MAX_FRAME_NUMBER. intros H.
+  destruct (p_unary false s) as [[ones s1]| |]; try discriminate.
+  destruct (N.eqb_spec ones 0).
+  - unfold p_rd in H. destruct (rd 7 s1) as [[v' r']|] eqn:E; inversion H; subst. apply rd_bound in E.
+    change (2 ^ N.of_nat 7) with 128 in E. change (2 ^ 36 - 1) with 68719476735. lia.
+  - destruct ((ones =? 1) || (7 <? ones)) eqn:Eb; [discriminate|].
+    apply orb_false_elim in Eb. destruct Eb as [B1 B2]. apply N.eqb_neq in B1. apply N.ltb_ge in B2.
+    destruct (p_rd (7 - N.to_nat ones) s1) as [[first s2]| |] eqn:E2; try discriminate.
+    unfold p_rd in E2. destruct (rd _ s1) as [[f' r']|] eqn:Ef; inversion E2; subst. apply rd_bound in Ef.
+    destruct (number_cont_inv _ _ _ _ _ H) as (c & _ & _ & Ev & _).
+    set (k := (N.to_nat ones - 1)%nat) in *.
+    assert (Hp : 2 ^ (6 * N.of_nat k) <> 0) by (apply N.pow_nonzero; discriminate).
+    pose proof (N.mod_upper_bound v _ Hp) as Hm.
+    assert (Hv : v < 2 ^ N.of_nat (7 - N.to_nat ones) * 2 ^ (6 * N.of_nat k)) by nia.
+    rewrite <- N.pow_add_r in Hv.
+    assert (Hle : 2 ^ (N.of_nat (7 - N.to_nat ones) + 6 * N.of_nat k) <= 2 ^ 36).
+    { apply N.pow_le_mono_r; [discriminate|]. unfold k. lia. }
+    lia.
+Qed.
+
+Theorem header_wf si s h r : parse_header_fields si s = Ok (h, r) -> wf_header si h = true.
+Proof.
+  unfold parse_header_fields, pbind. intros H.
+  destruct (p_rd 15 s) as [[sync s1]| |]; try discriminate.
+  destruct (sync =? SYNC_CODE); cbn [p_guard] in H; [|discriminate]. unfold pret at 1 in H.
+  destruct (p_bit s1) as [[variable s2]| |]; try discriminate.
+  destruct (p_rd 4 s2) as [[bs_code s3]| |] eqn:E1; try discriminate.
+  unfold p_rd in E1. destruct (rd 4 s2) as [[x1 y1]|] eqn:R1; inversion E1; subst. apply rd_bound in R1. change (2 ^ N.of_nat 4) with 16 in R1.
+  destruct (N.eqb_spec bs_code 0) as [|Nbs0]; cbn [negb p_guard] in H; [discriminate|]. unfold pret at 1 in H.
+  destruct (p_rd 4 s3) as [[rate_code s4]| |] eqn:E2; try discriminate.
+  unfold p_rd in E2. destruct (rd 4 s3) as [[x2 y2]|] eqn:R2; inversion E2; subst. apply rd_bound in R2. change (2 ^ N.of_nat 4) with 16 in R2.
+  destruct (negb ((rate_code =? 0) && _)) eqn:G2; cbn [p_guard] in H; [|discriminate]. unfold pret at 1 in H.
+  destruct (N.eqb_spec rate_code 15) as [|Nr15]; cbn [negb p_guard] in H; [discriminate|]. unfold pret at 1 in H.
+  destruct (p_rd 4 s4) as [[assign s5]| |]; try discriminate.
+  destruct (N.ltb_spec assign 11) as [Ha|]; cbn [p_guard] in H; [|discriminate]. unfold pret at 1 in H.
+  destruct (p_rd 3 s5) as [[bps_code s6]| |] eqn:E4; try discriminate.
+  unfold p_rd in E4. destruct (rd 3 s5) as [[x4 y4]|] eqn:R4; inversion E4; subst. apply rd_bound in R4. change (2 ^ N.of_nat 3) with 8 in R4.
+  destruct (negb ((bps_code =? 0) && _)) eqn:G4; cbn [p_guard] in H; [|discriminate]. unfold pret at 1 in H.
+  destruct (N.eqb_spec bps_code 3) as [|Nb3]; cbn [negb p_guard] in H; [discriminate|]. unfold pret at 1 in H.
+  destruct (p_rd 1 s6) as [[resv s7]| |]; try discriminate.
+  destruct (p_frame_number s7) as [[number s8]| |] eqn:E6; try discriminate.
+  apply frame_number_bound in E6.
+  match type of H with match ?x with _ => _ end = _ => destruct x as [[bs s9]| |] eqn:E7 end; try discriminate.
+  match type of H with match ?x with _ => _ end = _ => destruct x as [[rate s10]| |] eqn:E8 end; try discriminate.
+  destruct (p_rd 8 s10) as [[c8 s11]| |]; try discriminate.
+  unfold pret in H. inversion H; subst h r. clear H.
+  unfold wf_header. cbn [h_bs_code h_rate_code h_bps_code h_bs h_rate h_assign h_bps h_number].
+  apply N.ltb_lt in R1. apply N.ltb_lt in R2. apply N.ltb_lt in R4. apply N.ltb_lt in Ha. apply N.leb_le in E6.
+  rewrite R1, R2, R4, Ha, E6. cbn [andb]. rewrite !andb_true_r.
+  apply andb_true_intro. split; [apply andb_true_intro; split|].
+  - (* block size *)
+    destruct (bs_of_code bs_code) as [v|] eqn:Eb.
+    + unfold pret in E7. inversion E7; subst. apply N.eqb_refl.
+    + destruct (N.eqb_spec bs_code 6).
+      * unfold pbind in E7. destruct (p_rd 8 s8) as [[v s']| |] eqn:Ev; try discriminate.
+        unfold p_rd in Ev. destruct (rd 8 s8) as [[v' t']|] eqn:Rv; inversion Ev; subst. apply rd_bound in Rv. change (2 ^ N.of_nat 8) with 256 in Rv.
+        unfold pret in E7. inversion E7; subst. apply andb_true_intro. split; apply N.leb_le; lia.
+      * unfold pbind in E7. destruct (p_rd 16 s8) as [[v s']| |] eqn:Ev; try discriminate.
+        unfold p_rd in Ev. destruct (rd 16 s8) as [[v' t']|] eqn:Rv; inversion Ev; subst. apply rd_bound in Rv. change (2 ^ N.of_nat 16) with 65536 in Rv.
+        destruct (N.eqb_spec v 65535); cbn [negb p_guard] in E7; [discriminate|]. unfold pret in E7. inversion E7; subst.
+        assert (bs_code = 7).
+        { apply N.ltb_lt in R1.
+          assert (C : bs_code = 1 \/ bs_code = 2 \/ bs_code = 3 \/ bs_code = 4 \/ bs_code = 5 \/ bs_code = 7 \/ bs_code = 8 \/ bs_code = 9 \/
+                      bs_code = 10 \/ bs_code = 11 \/ bs_code = 12 \/ bs_code = 13 \/ bs_code = 14 \/ bs_code = 15) by lia.
+          destruct C as [->|[->|[->|[->|[->|[->|[->|[->|[->|[->|[->|[->|[->| ->]]]]]]]]]]]]]; try discriminate; reflexivity. }
+        subst bs_code. cbn [N.eqb Pos.eqb]. apply andb_true_intro. split; apply N.leb_le; lia.
+  - (* sample rate *)
+    destruct (rate_of_code rate_code) as [v|] eqn:Er.
+    + unfold pret in E8. inversion E8; subst. apply N.eqb_refl.
+    + destruct (N.eqb_spec rate_code 0) as [->|N0].
+      * unfold pret in E8. inversion E8; subst. destruct si; [apply N.eqb_refl|discriminate].
+      * destruct (N.eqb_spec rate_code 12).
+        { unfold pbind in E8. destruct (p_rd 8 s9) as [[v s']| |] eqn:Ev; try discriminate.
+          unfold p_rd in Ev. destruct (rd 8 s9) as [[v' t']|] eqn:Rv; inversion Ev; subst. apply rd_bound in Rv. change (2 ^ N.of_nat 8) with 256 in Rv.
+          unfold pret in E8. inversion E8; subst. rewrite N.mod_mul, N.div_mul by discriminate.
+          apply andb_true_intro. split; [reflexivity|apply N.ltb_lt; exact Rv]. }
+        destruct (N.eqb_spec rate_code 13).
+        { unfold p_rd in E8. destruct (rd 16 s9) as [[v' t']|] eqn:Rv; inversion E8; subst. apply rd_bound in Rv. apply N.ltb_lt. exact Rv. }
+        unfold pbind in E8. destruct (p_rd 16 s9) as [[v s']| |] eqn:Ev; try discriminate.
+        unfold p_rd in Ev. destruct (rd 16 s9) as [[v' t']|] eqn:Rv; inversion Ev; subst. apply rd_bound in Rv. change (2 ^ N.of_nat 16) with 65536 in Rv.
+        unfold pret in E8. inversion E8; subst.
+        assert (rate_code = 14).
+        { apply N.ltb_lt in R2.
+          assert (C : rate_code = 1 \/ rate_code = 2 \/ rate_code = 3 \/ rate_code = 4 \/ rate_code = 5 \/ rate_code = 6 \/ rate_code = 7 \/ rate_code = 8 \/
+                      rate_code = 9 \/ rate_code = 10 \/ rate_code = 11 \/ rate_code = 14) by lia.
+          destruct C as [->|[->|[->|[->|[->|[->|[->|[->|[->|[->|[->| ->]]]]]]]]]]]; try discriminate; reflexivity. }
+        subst rate_code. cbn [N.eqb Pos.eqb]. rewrite N.mod_mul, N.div_mul by discriminate.
+        apply andb_true_intro. split; [reflexivity|apply N.ltb_lt; exact Rv].
+  - (* bits per sample *)
+    destruct (bps_of_code bps_code) as [v|] eqn:Ep; [apply N.eqb_refl|].
+    destruct (N.eqb_spec bps_code 0) as [->|N0].
+    + destruct si; [apply N.eqb_refl|discriminate].
+    + exfalso. apply N.ltb_lt in R4.
+      assert (C : bps_code = 1 \/ bps_code = 2 \/ bps_code = 4 \/ bps_code = 5 \/ bps_code = 6 \/ bps_code = 7) by lia.
+      destruct C as [->|[->|[->|[->|[->| ->]]]]]; discriminate.
+Qed.
+
+(* ---- whole frames ---- *)
+Theorem struct_frame_wf si bytes f rest : struct_frame si bytes = Ok (f, rest) -> wf_frame si f = true.
+Proof.
+  unfold struct_frame. intros H.
+  destruct (parse_header_fields si (bits_of_bytes bytes)) as [[h0 s1]| |] eqn:Eh; try discriminate.
+  apply header_wf in Eh.
+  destruct (match si with Some i => header_checks i h0 | None => Ok h0 end) as [h| |] eqn:Eck; try discriminate.
+  assert (Eh0 : h = h0).
+  { destruct si as [i|]; [|inversion Eck; reflexivity]. unfold header_checks in Eck.
+    repeat match type of Eck with (if ?c then _ else _) = _ => destruct c; try discriminate end. inversion Eck. reflexivity. }
+  subst h. cbn [bind] in H. destruct (negb _); [discriminate|].
+  unfold pbind in H.
+  destruct (struct_subframes h0 0 _ s1) as [[subs s2]| |] eqn:Es; try discriminate.
+  pose proof (struct_subframes_wf _ _ _ _ _ _ Es) as Hsw.
+  assert (Ls : length subs = N.to_nat (assign_channels (h_assign h0))).
+  { clear - Es. revert Es. generalize (N.to_nat (assign_channels (h_assign h0))) as n. generalize 0%nat as i. revert s1 subs s2.
+    intros s1 subs s2 i n. revert i s1 subs s2. induction n as [|n IH]; intros i s1 subs s2 H; cbn [struct_subframes] in H.
+    - unfold pret in H. inversion H. reflexivity.
+    - unfold pbind in H. destruct (struct_subframe _ _ s1) as [[sf t1]| |]; try discriminate.
+      destruct (struct_subframes h0 (S i) n t1) as [[rest t2]| |] eqn:E2; try discriminate.
+      unfold pret in H. inversion H; subst. cbn [length]. f_equal. eapply IH; eauto. }
+  destruct (p_align s2) as [[u s3]| |]; try discriminate.
+  destruct (p_rd 16 s3) as [[v s4]| |]; try discriminate. unfold pret in H.
+  destruct (crc16 _ =? 0); [|discriminate]. inversion H; subst.
+  unfold wf_frame. cbn [f_hdr f_subs]. rewrite Eh, Hsw, Ls, Nat.eqb_refl. cbn [andb].
+  destruct si as [i|]; [|reflexivity]. rewrite Eck. reflexivity.
 Qed.
